@@ -346,24 +346,27 @@ def rule_rest(ctx: Ctx) -> None:  # noqa: C901, PLR0915
     fields = list(cls.fields)
     # ---- 4 slurm
     slurm = P.func(f"{MOD}.Resources.to_slurm_options")
-    read = Scope(ctx, slurm).attrs_read("self")
+    ssc = Scope(ctx, slurm, wide=True)
+    read = ssc.attrs_read("self")
     n = 0
     for f in fields:
         if f == "parallelization_mode":
             continue
         n += 1
-        ok = f in read
-        ctx.add("4-slurm", slurm, slurm.node, ok, f"`{f}` is read when building the options" if ok else f"to_slurm_options never reads `{f}`: a set `{f}` is not mentioned", key=f"emit {f}")
+        ok = f in read or (ssc.dynamic() and ssc.mentions(f))  # read directly, or by name through a table of field names
+        ctx.tri("4-slurm", slurm, slurm.node, ok, not ok and not ssc.dynamic(), f"`{f}` is read when building the options", f"to_slurm_options never reads `{f}`: a set `{f}` is not mentioned",
+                f"fields are read by computed name and `{f}` is not named in the tables the function uses", key=f"emit {f}")
     ctx.floor("4-slurm", n, 8)
     # ---- 5 validated
     post = P.func(f"{MOD}.Resources.__post_init__")
-    sc = Scope(ctx, post)
+    sc = Scope(ctx, post, wide=True)
     reads, consts = sc.attrs_read("self"), sc.str_consts()
     raises = sc.raises()
     ctx.add("5-validated", post, post.node, bool(raises), f"__post_init__ can reject ({len(raises)} raise site(s))" if raises else "__post_init__ never raises", key="raises")
     for f in ("cpus", "gpus", "nodes", "cpus_per_node", "memory", "time"):
-        ok = f in reads or f in consts
-        ctx.add("5-validated", post, post.node, ok, f"`{f}` is examined at construction" if ok else f"__post_init__ never looks at `{f}`: invalid values are accepted", key=f"examines {f}")
+        ok = f in reads or f in consts or (sc.dynamic() and sc.mentions(f))
+        ctx.tri("5-validated", post, post.node, ok, not ok and not sc.dynamic(), f"`{f}` is examined at construction", f"__post_init__ never looks at `{f}`: invalid values are accepted",
+                f"fields are examined by computed name and `{f}` is not named in the tables used", key=f"examines {f}")
     # every test and, for nested ifs, the conjunction of enclosing tests
     tests: list[str] = []
 
@@ -374,7 +377,7 @@ def rule_rest(ctx: Ctx) -> None:  # noqa: C901, PLR0915
                 if any(isinstance(x, ast.Raise) for x in ast.walk(s)):
                     tests.append(t)
                 collect(s.body, t, dd)
-                collect(s.orelse, outer, dd)
+                collect(s.orelse, outer + " && not (" + norm(dd.resolve(s.test)) + ")", dd)
             elif isinstance(s, (ast.For, ast.With, ast.Try)):
                 collect(s.body, outer, dd)
 
